@@ -16,7 +16,7 @@ from ..core import strip_addr
 from ..faults import Faults
 from ..harness import Check
 
-HOSTS = ["plain", "spec_unmanaged", "spec_annotated", "spec_annotated_prepared"]
+HOSTS = ["plain", "spec_unmanaged", "spec_annotated", "spec_annotated_prepared", "spec_sub_narrowed"]
 
 
 def build_prop_class(cfg, faults):
@@ -62,6 +62,14 @@ def build_prop_class(cfg, faults):
             faults.hit("preparer")
             return abs(v) if isinstance(v, int) and not isinstance(v, bool) else v
         ns["_prepare_prop"] = _prepare_prop
+    if host == "spec_sub_narrowed":
+        # the property lives on a parent that annotates the attribute widely; the class under test is a spec subclass
+        # that re-annotates it as int and inherits the getter: results are judged by the instance's own annotation
+        import typing
+        ns["__annotations__"] = {"prop": typing.Union[int, str]}
+        base = spec_class(bootstrap=cfg.get("eager", True))(type("PBase", (), ns))
+        return spec_class(bootstrap=cfg.get("eager", True))(
+            type("PHost", (base,), {"__module__": "specsim.generated", "__annotations__": {"prop": int}}))
     cls = type("PHost", (), ns)
     if host != "plain":
         cls = spec_class(bootstrap=cfg.get("eager", True))(cls)
@@ -73,7 +81,7 @@ class PropModel:
         self.cfg = cfg
         self.base = 0
         self.slot = _NONE
-        self.managed = cfg["host"] in ("spec_annotated", "spec_annotated_prepared")
+        self.managed = cfg["host"] in ("spec_annotated", "spec_annotated_prepared", "spec_sub_narrowed")
         self.prepared = cfg["host"] == "spec_annotated_prepared"
 
     def prep(self, v):
